@@ -656,6 +656,9 @@ func Run(r *rt.Run) error {
 			}
 			defer rn.close()
 			for i := w; i < len(scs); i += workers {
+				if droppedTraces.Load() >= maxDropTrace {
+					break // consumed-and-dropped messages recorded: the verdict is settled (dropped.go)
+				}
 				sc := scs[i]
 				tr := traces[w]
 				if sc.barrier {
@@ -686,6 +689,7 @@ func Run(r *rt.Run) error {
 		r.Extra[k] = v
 	}
 	r.Extra["scenarios"] = len(scs)
+	r.Extra["dropped_message_traces"] = droppedTraces.Load()
 	r.Finish("real join/union tasks (stream and batch) fed one parent message at a time in a forced arrival order (hook-free: the node's timer Stop marks the end of each receiver call); every time-ordered parent sequence up to the bound x every interleaving for the grid fill{none,null,num} x tolerance{0,2}; per-step sink outputs logged; non-trivial = >= 2 messages, distinct by (config, input, schedule)", exhaustive)
 	return nil
 }
